@@ -215,6 +215,17 @@ impl<TStdlib: Stdlib, TStdIn: Input, TStdOut: Printer, TLpt1: Printer> Interpret
                 },
                 Err(e) => {
                     self.last_error_code = Some(e.err().get_code());
+                    if !matches!(ctx.error_handler, ErrorHandler::None)
+                        && matches!(
+                            instruction,
+                            Instruction::BuiltInSub(_) | Instruction::BuiltInFunction(_)
+                        )
+                    {
+                        // the built-in failed before its `PopStack` instruction:
+                        // leave the built-in's context, otherwise the program
+                        // continues inside it after the error is handled
+                        self.context.pop();
+                    }
                     match ctx.error_handler {
                         ErrorHandler::Address(handler_address) => {
                             // store error address, so we can call RESUME and RESUME NEXT from within the error handler
